@@ -261,7 +261,48 @@ pub fn c12(tier: &str) -> i32 {
         cfgs.len(),
         cfgs.iter().map(|c| format!("{}/{}/{}/{}/{}", c.page_size, c.cache, c.pool, c.min_keys, c.siblings)).collect::<Vec<_>>().join(" ")
     );
-    let searches = vec![Search { label, engine: "cfg", params: serde_json::to_value(&p).unwrap(), alphabet_shown: alpha.iter().map(|o| o.show()).collect(), max_depth: if quick { 3 } else { 4 }, budget: if quick { 20_000 } else { 200_000 }, timeout_s: 300 }];
+    let mut searches = vec![Search { label, engine: "cfg", params: serde_json::to_value(&p).unwrap(), alphabet_shown: alpha.iter().map(|o| o.show()).collect(), max_depth: if quick { 3 } else { 4 }, budget: if quick { 20_000 } else { 200_000 }, timeout_s: 300 }];
+    // second search: the state after a populated table was dropped (non-empty free list): tables created now live on
+    // recycled pages, whose first image in the file is the freed page
+    {
+        let d = TableDef::simple("d", &[("k", ColTy::Int), ("s", ColTy::Text)]);
+        let j = TableDef::simple("j", &[("k", ColTy::Int), ("s", ColTy::Text)]);
+        let n = TableDef::simple("n", &[("k", ColTy::Int), ("s", ColTy::Text)]);
+        let n2 = TableDef::simple("n2", &[("k", ColTy::Int), ("v", ColTy::Int)]).with_unique(&["k"]);
+        let ins = |t: &str, range: std::ops::RangeInclusive<i128>, len: usize| Stmt::Insert { table: t.into(), rows: range.map(|k| vec![i(k), txt(len, (b'a' + (k % 26) as u8) as char)]).collect() };
+        let prefix = vec![
+            Op::Auto(Stmt::CreateTable(d)),
+            Op::Auto(Stmt::CreateTable(j)),
+            Op::Auto(ins("d", 1..=40, 150)),
+            Op::Auto(ins("d", 41..=80, 150)),
+            Op::Auto(ins("d", 81..=120, 150)),
+            Op::Auto(ins("j", 1..=30, 900)),
+            Op::Auto(ins("j", 31..=60, 900)),
+            Op::Auto(Stmt::DropTable("j".into())),
+        ];
+        let alpha2 = vec![
+            Op::Auto(Stmt::CreateTable(n)),
+            Op::Auto(Stmt::CreateTable(n2)),
+            Op::Auto(ins("n", 1..=2, 20)),
+            Op::Auto(Stmt::Insert { table: "n2".into(), rows: vec![vec![i(1), i(10)], vec![i(2), i(20)]] }),
+            Op::Auto(Stmt::Select { table: "n".into(), pred: None }),
+            Op::Auto(Stmt::Select { table: "n2".into(), pred: Some(("k".into(), i(2))) }),
+            Op::Auto(ins("d", 200..=239, 150)),
+            Op::Auto(Stmt::Select { table: "d".into(), pred: None }),
+            Op::Flush,
+            Op::Reopen,
+        ];
+        let p2 = CfgParams { seq: SeqParams { prefix, alphabet: alpha2.clone(), ..p.seq.clone() }, cfgs: cfgs.clone(), oom_allowed_below: 24 };
+        searches.push(Search {
+            label: format!("after DROP of a populated table (60 rows of 900 B; free list non-empty): CREATE of a plain and of a UNIQUE-keyed table on recycled pages, bulk traffic on d in between, first insert/select on the new tables, flush, reopen, under the same {} configurations", cfgs.len()),
+            engine: "cfg",
+            params: serde_json::to_value(&p2).unwrap(),
+            alphabet_shown: alpha2.iter().map(|o| o.show()).collect(),
+            max_depth: if quick { 3 } else { 4 },
+            budget: if quick { 20_000 } else { 200_000 },
+            timeout_s: 300,
+        });
+    }
     run_searches(
         "C12",
         tier,
